@@ -54,13 +54,27 @@ func c08Judge(c *hx.Ctx, in []byte, class string, seed []byte) {
 	want, amb, rerr := refesl.Decode(in)
 	var db signature.SignatureDatabase
 	var err error
-	if p := hx.Try(func() { db, err = signature.ReadSignatureDatabase(bytes.NewReader(in)) }); p != nil {
+	var uerr error
+	var udb signature.SignatureDatabase
+	if p := hx.Try(func() {
+		db, err = signature.ReadSignatureDatabase(bytes.NewReader(in))
+		// the entry point the efivarfs accessors use
+		uerr = udb.Unmarshal(bytes.NewBuffer(append([]byte{}, in...)))
+	}); p != nil {
 		c.Outcome("panic")
 		c.Violation("C08 decoding ends in "+p.String()+" for "+class, map[string]any{"input": hx8(in), "class": class, "stack": p.Stack})
 		return
 	}
 	if rerr != nil && !bytes.Equal(in, seed) {
 		c.Nontrivial(in)
+	}
+	if (err == nil) != (uerr == nil) || (err == nil && !bytes.Equal(db.Bytes(), udb.Bytes())) {
+		c.Outcome("entry-points-disagree")
+		if uerr == nil {
+			// judge what Unmarshal accepted
+			db, err = udb, nil
+			class += ", through SignatureDatabase.Unmarshal"
+		}
 	}
 	if err != nil {
 		if rerr != nil {
